@@ -1,40 +1,151 @@
 import Sigc.Model
-import Sigc.Lemmas.Basic
-import Sigc.Lemmas.Frames
+import Sigc.Spec
+import Sigc.Lemmas.InvLive
+import Sigc.Lemmas.InvExamples
 /-!
 # C07 — disconnected slots release their functor and memory; nothing leaks
-(first theorems; the all-history invariants are being proved in Sigc/Lemmas/Inv*.lean)
+
+Model-level content (mechanism model `P`): the library's heap objects are the impls (`signal_impl`,
+owned by `shared_ptr`s of signal objects and of `signal_impl_holder`s), the cells with their reps, and
+the functor copies inside reps (`liveCount`, `liveTotal`).
+
+* `no_orphans` — at every quiescent point every impl is owned by a live signal object, no holder is
+  outstanding, no slot variable is busy; inside emissions the indexed form `C06.balance_inside`.
+* `all_released` — after the harness teardown of *any* reachable state: no impl, no slot, no signal,
+  no connection, no scoped connection, no trackable is left and no functor copy is alive.
+* `functor_alive_def`, `release_*` — a functor copy is alive iff it sits in the rep of a user slot or of a
+  cell of a live impl (by definition of `liveCount`), and the operations that destroy reps release exactly
+  the copies those reps held: `invalidate`, `eraseCell`, `sweep`, `~signal_impl`.
 -/
 namespace Sigc.C07
-open Sigc.Model
+open Sigc.Model Sigc.Inv
 
-/-- the library holds functor copies only inside representations of slot variables and of list
-    cells: with no slot variable and no list, no copy of any functor is alive -/
-theorem nothing_held_without_owners (s : St) (hS : s.S = []) (hI : s.impls = []) (fid : Nat) :
-    liveCount s fid = 0 ∧ liveTotal s = 0 := by
-  simp [liveCount, liveTotal, hS, hI]
+/-- **no orphans**: in every reachable (quiescent) state
+    * every `signal_impl` is owned by a live signal object and has no outstanding `signal_impl_holder`;
+    * every signal object's impl exists;
+    * no user slot is in the middle of an invocation -/
+theorem no_orphans (fuel : Nat) (P : Prog) (s : St) (h : runTop fuel P {} P.top = some s) :
+    (∀ p ∈ s.impls, p.2.holders = 0 ∧ ∃ g hd, aget s.G g = some hd ∧ hd.impl = some p.1) ∧
+    (∀ g hd i, aget s.G g = some hd → hd.impl = some i → ∃ im, aget s.impls i = some im) ∧
+    (∀ i v, aget s.S i = some v → v.incall = 0) := by
+  have hl := Links.reachable fuel P s h
+  have hb := Bal.reachable fuel P s h
+  have hc := Inc.reachable fuel P s h
+  refine ⟨?_, fun g hd i hg hi => hl.1.2.get hg hi, fun i v hv => hc.1 i v hv⟩
+  intro p hp
+  obtain ⟨h1, h2⟩ := hb.2.1 p.1 p.2 (aget_of_mem hl.1.1.keys hp)
+  refine ⟨h1, ?_⟩
+  rcases h2 with e | e | e
+  · cases e
+  · exact absurd e (Nat.lt_irrefl 0)
+  · exact e
 
-/-- an invalidated representation (referenced trackable died) has released its functor copy -/
-theorem invalidate_releases (sl : SlotB) (fid : Nat) : sl.invalidate.live fid = 0 ∧ sl.invalidate.liveAll = 0 := by
-  unfold SlotB.invalidate
-  cases hr : sl.rep <;> simp [SlotB.live, SlotB.liveAll, hr]
+/-- **all released**: run any program to the end, then let the harness destroy what is left (scoped
+    connections, connections, slots, `clear()`, signals, trackables).  Nothing of the library remains:
+    no `signal_impl`, no slot, no signal object, no connection, no trackable, and not a single functor copy -/
+theorem all_released (fuel fuel' : Nat) (P : Prog) (s s' : St) (h : runTop fuel P {} P.top = some s)
+    (ht : teardown fuel' P s = some s') :
+    s'.impls = [] ∧ s'.S = [] ∧ s'.G = [] ∧ s'.C = [] ∧ s'.K = [] ∧ s'.T = [] ∧
+    liveTotal s' = 0 ∧ ∀ fid, liveCount s' fid = 0 := by
+  have hs : TdInv s :=
+    ⟨(Links.reachable fuel P s h).1.1, Bal.reachable fuel P s h, Inc.reachable fuel P s h⟩
+  obtain ⟨_, hK, hC, hS, hG, hT, hI⟩ := teardown_empty fuel' P s s' hs ht
+  exact ⟨hI, hS, hG, hC, hK, hT, liveTotal_nil hS hI, liveCount_nil hS hI⟩
 
-/-- `sweep()` erases exactly the empty cells: every surviving cell is non-empty, every non-empty cell survives in order -/
-theorem sweep_cells (s : St) (i : Nat) (im : Impl) (hi : aget s.impls i = some im) :
-    ∃ im', aget (sweep s i).impls i = some im' ∧ im'.cells = im.cells.filter (fun c => !c.slot.empty) := by
-  unfold sweep
-  simp only [hi]
-  rw [nullConnsList_impls]
-  exact ⟨{ im with deferred := false, cells := im.cells.filter (fun c => !c.slot.empty) }, by simp, rfl⟩
+/-
+  Not part of `all_released`, and false of the model: `s'.ownedT = [] ∧ s'.ownedK = []`.
+  `teardown` runs its operations through `execOp`, which (unlike `execLine` and `emitImpl`) does not run
+  `collect`; witness: `owners; newT 0; mkS 0 V ownT:1:0` ends, after teardown, with `ownedT = [1]` although
+  no functor holds object 1 any more.  Nothing observable (trace, `final live=`) depends on it.
+-/
 
-/-- erasing a cell removes it (and only it) from its list -/
-theorem eraseCell_cells (s : St) (i cid : Nat) (im : Impl) (hi : aget s.impls i = some im) :
-    ∃ im', aget (eraseCell s i cid).impls i = some im' ∧ im'.cells = im.cells.filter (·.id ≠ cid) := by
-  unfold eraseCell
-  simp only [hi, nullConns_impls]
-  exact ⟨{ im with cells := im.cells.filter (·.id ≠ cid) }, by simp, rfl⟩
+/-- the same from any quiescent state satisfying the invariants (not only at the end of a program) -/
+theorem all_released_from (fuel : Nat) (P : Prog) (s s' : St) (hs : TdInv s)
+    (ht : teardown fuel P s = some s') :
+    s'.impls = [] ∧ s'.S = [] ∧ s'.G = [] ∧ s'.C = [] ∧ s'.K = [] ∧ s'.T = [] ∧ liveTotal s' = 0 := by
+  obtain ⟨_, hK, hC, hS, hG, hT, hI⟩ := teardown_empty fuel P s s' hs ht
+  exact ⟨hI, hS, hG, hC, hK, hT, liveTotal_nil hS hI⟩
 
-example : liveTotal { S := [(0, { isVoid := false, slot := { rep := some { call := true, fn := some (.nest false (some (.leaf 2 []))) } } })] } = 1 := by
-  decide
+/-! ### functor copies -/
+
+/-- by definition: the live copies of functor `fid` are exactly those held by reps of user slot variables
+    and of cells of live impls -/
+theorem functor_alive_def (s : St) (fid : Nat) :
+    liveCount s fid = slotsLive fid s.S + implsLive fid s.impls := rfl
+
+/-- a rep loses its functor through `notify_slot_rep_invalidated` (trackable death) … -/
+theorem release_invalidate (sl : SlotB) (fid : Nat) :
+    sl.invalidate.live fid = 0 ∧ sl.invalidate.liveAll = 0 :=
+  ⟨live_invalidate sl fid, liveAll_invalidate sl⟩
+
+/-- … not through `disconnect()` alone (the functor dies with the rep, when the cell is erased) … -/
+theorem disconnect_keeps_functor (sl : SlotB) (fid : Nat) : sl.disconnectRep.live fid = sl.live fid :=
+  live_disconnectRep sl fid
+
+/-- … through the erase of its cell: exactly the copies of the erased cell are released -/
+theorem release_eraseCell {s : St} {i cid : Nat} {im : Impl} (hi : aget s.impls i = some im) (fid : Nat) :
+    liveCount (eraseCell s i cid) fid + cellsLive fid (im.cells.filter (fun c => !decide (c.id ≠ cid))) =
+      liveCount s fid :=
+  liveCount_eraseCell hi fid
+
+/-- … through the sweep at the end of the outermost emission: exactly the copies of the cells that had
+    become empty -/
+theorem release_sweep {s : St} {i : Nat} {im : Impl} (hi : aget s.impls i = some im) (fid : Nat) :
+    liveCount (sweep s i) fid + cellsLive fid (im.cells.filter (fun c => c.slot.empty)) = liveCount s fid :=
+  liveCount_sweep hi fid
+
+/-- … and through `~signal_impl`: every copy held by the cells of the destroyed list -/
+theorem release_gcImpl {s : St} (hw : WF s) {i : Nat} {im : Impl} (hi : aget s.impls i = some im)
+    (hrm : aget (gcImpl s i).impls i = none) (fid : Nat) :
+    liveCount (gcImpl s i) fid + cellsLive fid im.cells = liveCount s fid :=
+  liveCount_gcImpl_removed hw hi hrm fid
+
+/-- after `notify_callbacks()` of object `o`, every user slot and every cell that referred to `o` holds no
+    functor copy any more -/
+theorem release_on_trackable_death {s : St} (hw : WF s) (o : Nat) :
+    (∀ k v, aget s.S k = some v → v.slot.tracksObj o = true →
+        ∃ v', aget (invalidateTrackable s o).S k = some v' ∧ v'.slot.liveAll = 0) ∧
+    (∀ i im c, aget s.impls i = some im → c ∈ im.cells → c.slot.tracksObj o = true →
+        ∀ j jm d, aget (invalidateTrackable s o).impls j = some jm → d ∈ jm.cells → d.id = c.id →
+          d.slot.liveAll = 0) := by
+  constructor
+  · intro k v hk ht
+    refine ⟨{ v with slot := v.slot.invalidate }, ?_, liveAll_invalidate _⟩
+    rw [(invalidateTrackable_frame s o).2.2.2.2, aget_amap, hk]
+    simp [ht]
+  · intro i im c hi hc ht j jm d hj hd hde
+    exact (invalidateTrackable_gone hw hi hc ht j jm d hj hd hde).2.2.1
+
+/-
+  `functor_alive_iff` (full statement, not proved here): at every quiescent point a functor copy is alive
+  iff it is held by a rep that is the rep of a cell of a live impl with `call = true` or of a live user slot
+  not invalidated by a trackable.  Missing: the invariant "`exec = 0` at quiescent points and then every
+  cell is linked and has no deferred erase pending" (`exec`/`deferred`/end-marker bookkeeping of the emission,
+  work package p_emit); with it the statement follows from `release_*` above, `no_orphans` and
+  `C02.invalidates_all`.
+-/
+
+/-! ### examples -/
+
+/-- on the example state `Sigc.Inv.exT` the trackable's death releases both functor copies' holders -/
+example : ∃ v', aget (invalidateTrackable exT 7).S 0 = some v' ∧ v'.slot.liveAll = 0 :=
+  (release_on_trackable_death exT_wf 7).1 0 _ (by simp [exT, aget]; rfl) (by decide)
+
+/-- `sig.connect(f1)`: one functor copy is alive at the end of the program; the teardown releases it and
+    everything else -/
+def exP : Prog :=
+  { bodies := [],
+    top := [⟨"newG 0 V", .newG 0 (some .V)⟩, ⟨"connfn 0 0 fn 1", .connfn 0 0 (.fn 1) false⟩] }
+
+example : ∃ s, runTop 3 exP {} exP.top = some s ∧ liveTotal s = 1 ∧
+    ∀ s', teardown 3 exP s = some s' → s'.impls = [] ∧ liveTotal s' = 0 := by
+  have h : ∃ s, runTop 3 exP {} exP.top = some s ∧ liveTotal s = 1 := by
+    simp [exP, runTop, execLine, execOp, stepSimple, aget, aset, St.fresh, mkFun, specTaint, ensureImpl,
+      insertCell, setConn, setImpl, St.log, collect, collectN, modeRule, FSpec.isOwner, liveTotal, SlotB.liveAll,
+      Fun.countAll]
+  obtain ⟨s, hs, hl⟩ := h
+  refine ⟨s, hs, hl, fun s' ht => ?_⟩
+  obtain ⟨h1, _, _, _, _, _, h7, _⟩ := all_released 3 3 exP s s' hs ht
+  exact ⟨h1, h7⟩
 
 end Sigc.C07
